@@ -87,7 +87,9 @@ Mech(r, m) == IF r.mode = "buffered" THEN BMech(r, m) ELSE IF r.mode = "child" T
 
 \* panic clause of C09: a child process whose processing function panics at item `fail`
 \* must terminate (the parent records its exit status or "hang" after 10 s)
-CClauses(r) == << <<"terminates_on_panic", r.exit # "hang">> >>
+\* (exit status 42 = the consumer reached the end of the stream: the panic cut the stream short without ending the process)
+CClauses(r) == << <<"terminates_on_panic", r.exit # "hang">>,
+                  <<"panic_ends_the_process", r.exit # "code:42">> >>
 
 Clauses(r, m) == IF r.mode = "buffered" THEN BClauses(r, m)
                  ELSE IF r.mode = "child" THEN CClauses(r)
